@@ -31,21 +31,25 @@ Clause(e, name, ok) == IF ok THEN TRUE ELSE PrintT(<<"REJECT", e.id, name>>)
 TraceInit == Init /\ l = 1 /\ bobs = [out |-> <<>>, exc |-> ""]
 
 Check(e, ex, isBase) ==
-    LET o == e.obs IN
+    LET o == e.obs
+        \* judge = "rel": the call lies outside the quantifier domain of the rule properties (e.g. sub-second
+        \* time steps) and is only compared with the session's base call (C15: another carrier of the same series)
+        relOnly == e.judge = "rel"
+    IN
     \* C01: total on admissible input, one visible valid flag per element, pure, repeatable
-    /\ Clause(e, "c01_total",  ex.ok => o.exc = "")
+    /\ Clause(e, "c01_total",  relOnly \/ (ex.ok => o.exc = ""))
     /\ Clause(e, "c01_shape",  o.exc = "" => (o.shape_ok /\ o.alpha_ok /\ o.masked = 0
                                                /\ Len(o.out) = N(e.call)))
     /\ Clause(e, "c01_pure",   o.same)
     /\ Clause(e, "c01_again",  o.again)
     \* the rule of the test (C03, C08..C14)
-    /\ Clause(e, "rule",       Conforms(ex, o.out, o.exc))
+    /\ Clause(e, "rule",       relOnly \/ Conforms(ex, o.out, o.exc))
     \* C02 on the logged flags, independent of the rule
-    /\ Clause(e, "c02",        (ex.ok /\ o.exc = "") => C02Holds(e.call, o.out))
+    /\ Clause(e, "c02",        relOnly \/ ((ex.ok /\ o.exc = "") => C02Holds(e.call, o.out)))
     \* the relation to the base call (C01 recall, C13 mirror, C16, C17)
     /\ Clause(e, "rel",
               (~isBase /\ o.exc = "" /\ bobs.exc = ""
-                 /\ ex.ok /\ Expected(base, e.lenient).ok
+                 /\ (relOnly \/ (ex.ok /\ Expected(base, e.lenient).ok))
                  /\ Len(o.out) = N(e.call) /\ Len(bobs.out) = N(base))
               => RelHolds(e.rel, base, e.call, Singles(bobs.out), Singles(o.out)))
 
